@@ -9,7 +9,7 @@ import time
 def main(argv):
     os.environ["VF_SYMBOLIC"] = "0"
     sys.path.insert(0, "/verif")
-    sys.path.insert(0, "/repo")
+    sys.path.insert(0, os.environ.get("VF_REPO", "/repo"))
     importlib.import_module(argv[0])
     from vf.registry import REG
 
